@@ -335,6 +335,11 @@ func (c *rrComp) Gen(rng *rand.Rand, idx int, tier string, targeted bool) hlib.H
 				id := serverID()
 				emit(3, tableKeys[id], id)
 			}
+			if rng.Intn(40) == 0 && len(ref.keys) > 0 { // two options, the second one failing: nothing may change (also a weight of 0 as the first option: D20)
+				k := ref.keys[rng.Intn(len(ref.keys))]
+				w1 := pickW()
+				emit(8, k, ref.id[k], w1, -1)
+			}
 			if rng.Intn(60) == 0 { // failing administration calls in the middle of a window must change nothing
 				id := int64(11 + rng.Intn(2))
 				emit(1, tableKeys[id], id)
@@ -623,6 +628,29 @@ func (c *rrComp) Run(h *hlib.History) ([]hlib.Mon, bool) {
 				hit("C02", step, "failed-call-changed-pool", "a rejected UpsertServer changed the pool")
 			}
 			obs = append([]int64{hlib.B2i(err == nil)}, d...)
+		case op[0] == 8 && len(op) == 5:
+			// UpsertServer(u, Weight(w1), Weight(w2)): options apply in order; when one fails nothing may have changed (for an
+			// existing server they work on a copy) and the window of selections under way is not disturbed
+			key, id, w1, w2 := op[1], op[2], op[3], op[4]
+			if !validURL(key, id) {
+				return nil, false
+			}
+			before := r.dump()
+			err := rr.UpsertServer(mustParse(urlTable[id]), roundrobin.Weight(int(w1)), roundrobin.Weight(int(w2)))
+			want := w1 >= 0 && w2 >= 0
+			if want {
+				ref.upsert(key, id, 1, w2, dw)
+				delete(removed, key)
+				newEpoch()
+			}
+			if (err == nil) != want {
+				hit("C02", step, "upsert-result", fmt.Sprintf("UpsertServer(%s, Weight(%d), Weight(%d)) returned %v", urlTable[id], w1, w2, err))
+			}
+			d := r.dump()
+			if !want && !eqInts(before, d) {
+				hit("C02", step, "failed-call-changed-pool", fmt.Sprintf("UpsertServer(%s, Weight(%d), Weight(%d)) failed and changed the pool", urlTable[id], w1, w2))
+			}
+			obs = append([]int64{hlib.B2i(err == nil)}, d...)
 		case op[0] == 1 && len(op) == 3:
 			key, id := op[1], op[2]
 			if !validURL(key, id) {
@@ -829,6 +857,8 @@ func (c *rrComp) Describe(h *hlib.History) interface{} {
 			s = fmt.Sprintf("Remove(%s)", name(op[2]))
 		case 2:
 			s = "NextServer"
+		case 8:
+			s = fmt.Sprintf("Upsert(%s,Weight(%d),Weight(%d))", name(op[2]), op[3], op[4])
 		case 3:
 			s = fmt.Sprintf("ServerWeight(%s)", name(op[2]))
 		case 4:
